@@ -2,11 +2,21 @@
 
 Metamorphic, run-vs-run: the observation of a generated (world, validated config, multi-agent script) must be identical
 (a) when re-executed in the same warm process, (b) in fresh processes under other PYTHONHASHSEED values (case order
-reversed), (c) under perturbed clocks (perf_counter / time.time jittered, scaled, stalling; datetime.now() offset by
-hours inside the engine modules), (d) with thread switching forced to 1 microsecond (T1- and T2-parallel configs run their shard tasks on threads).
+reversed), (c) under perturbed clocks (perf_counter / time.time / monotonic / *_ns jittered, scaled, stalling; datetime.now()
+offset by hours or years inside the engine modules; os.listdir order shuffled; another process time zone), (d) with thread switching forced to 1 microsecond
+(T1- and T2-parallel configs run their shard tasks on threads).
+
+Hardened generator (see HARDENING.md): every cap the stages apply is drawn small enough to bite (k_retrieval, clusters_top_m,
+residual cap, topic cap, GEL observe/pair/merge/promotion caps, hybrid k_max/anchors, MMR k, T4 churn/novelty/L2, queue/frontier/
+visited caps, cache sizes/TTLs), worlds carry exact ties, labels / episode ids differing only in case, more touched labels
+than the topic cap; the planner hook feeds real deltas to T4/apply/snapshots; an LLM dialogue backend (deterministic echo
+adapter) makes the prompt visible; a second session boots from the snapshots the first one wrote; snapshot bodies are hashed
+after EVERY turn (a body overwritten later is still compared); retrieval order is visible in most utterances.
 """
 from __future__ import annotations
 
+import contextlib
+import copy
 import hashlib
 import json
 import os
@@ -20,51 +30,118 @@ from harness.runner import Sub, Violation, run_hypothesis, digest, jsonable
 from harness import world, observe
 
 LEVEL = "exploration"
-RULE = ("Hypothesis-generated worlds (2 graphs, 3-10 episodes of 3 owners incl. exact ties, GEL edges), validated configs "
-        "(caches on/off, T1-parallel and T2-parallel 2-4 workers, scheduler enabled with huge quantum so only budget-driven yields occur, "
-        "GEL with merge/split/promotion, reflection, hybrid, quality+MMR, perf metrics on/off) and scripts of 2-6 turns over "
-        "2-3 agents; each case is executed in 5 environments (in-process, warm re-run, fresh process PYTHONHASHSEED=1 with "
-        "reversed case order, fresh process with a seed-derived hash seed + perturbed clocks + 1us thread switching, and "
-        "in thorough two more). Non-trivial = some turn did T1 work (pops>0) and retrieved >=1 episode, and >=2 agents "
-        "took turns. Distinct = digest of the case.")
+RULE = ("Hypothesis-generated worlds (3 graphs of up to 10/4/3 nodes with overlapping node ids, labels differing only in case, "
+        "crowds of >5 touched labels; 3-14 episodes of 4 owners incl. exact tie blocks, ids differing in case; GEL edges), "
+        "validated configs (every stage cap drawn small enough to bite; caches on/off/small/byte-sized; T1- and T2-parallel 2-4 "
+        "workers; scheduler with huge quantum so only budget-driven yields occur; GEL merge/split/promotion with caps; reflection; "
+        "hybrid; quality+MMR; perf metrics/caps; retrieval from on-disk embedding shards; planner hook feeding deltas to T4/apply; "
+        "LLM dialogue through an echo adapter; eager RAG; turn-level cache hits at a frozen instant with T4 off) and scripts of 2-6 turns over 2-3 agents with ingest/rewire steps between turns, optional second session "
+        "booting from the written snapshots, optional header+payload (full/delta) re-encoding of the snapshot bodies; each case "
+        "is executed in 4 environments (in-process, warm re-run, fresh process PYTHONHASHSEED=1 with reversed case order, fresh "
+        "process with a seed-derived hash seed + perturbed clocks/listdir/time zone + 1us thread switching; thorough: two more). "
+        "Non-trivial = some turn did T1 work (pops>0) and retrieved >=1 episode, and >=2 agents took turns. Distinct = digest of the case.")
 ASSUMPTIONS = ["compared: utterances, t1/t2/t4/apply/turn/health.jsonl bytes under CI=true with the sandbox path normalised, "
-               "scheduler.jsonl with consumed.ms masked, snapshot bodies (state_*.json), final state digest; t3*/gel.jsonl "
-               "(raw timings) by record count only",
+               "scheduler.jsonl with consumed.ms masked, snapshot bodies (state_*.json) after every turn and at the end, "
+               "header+payload snapshot files written from those bodies, final state digests; t3*/gel.jsonl (raw timings) by "
+               "record count only",
                "scheduler.budgets.time_ms_reflection is not set (a wall-clock budget is wall-clock dependent by design)",
-               "episodes always carry a valid ts (a missing ts falls back to the wall clock in the recency filter)"]
+               "episodes always carry a valid ts (a missing ts falls back to the wall clock in the recency filter)",
+               "T1-parallel is never combined with a T1 stage cache smaller than the entries touched (known finding "
+               "t1-parallel-cache-eviction-order, owned by C09)",
+               "before a second session boots, the snapshot files get mtimes in the order they were written (the loader picks "
+               "the newest state_*.json by mtime; real mtimes of files written milliseconds apart may tie on coarse clocks)",
+               "the planner installed through the orchestrator's t3_deliberate hook is a pure function of the plan bundle"]
 
-FEATURES = ["caches_off", "t1_parallel", "t2_parallel", "t2_parallel", "sched_budgets", "gel", "reflection", "hybrid", "quality", "perf_metrics", "agent_scope",
-            "kill_switch", "snapshot_every_2", "snippet_template"]
+# drawn features (repeats = weight). "agent_scope", "snapshot_every_2", "snippet_template" of the first version are still understood by
+# feature_overrides (saved cases) but are now drawn as plain config leaves (_base_cfg).
+FEATURES = ["caches_off", "t1_parallel", "t1_parallel", "t2_parallel", "t2_parallel", "sched_budgets", "gel", "gel", "reflection", "hybrid", "hybrid", "quality", "quality",
+            "perf_metrics", "kill_switch",
+            # hardening wave
+            "planner_deltas", "planner_deltas", "planner_deltas", "llm_dialogue", "rag_eager", "perf_caches", "small_caches", "t1_perf_caps",
+            "embed_reader", "embed_reader"]
+
+TEMPLATES = ["say {labels} | {snippets} | {intent}", "{intent}: {snippets_text}", "{style_prefix}| {labels} / {snippets} / {snippets_text}",
+             "{snippets} :: {labels}"]
 
 
-def feature_overrides(feats, draw_vals):
+def _opt(d: dict, key: str, val):
+    if val is not None:
+        d[key] = val
+    return d
+
+
+def feature_overrides(feats, v):
+    """Config overrides of the drawn features. `v` holds the drawn values; keys absent from `v` (older saved cases) keep the
+    engine defaults / the constants the first version of this check used."""
     o = {}
+    par = {}
     if "caches_off" in feats:
         o = world.deep_merge(o, {"t1": {"cache": {"enabled": False}}, "t2": {"cache": {"enabled": False}}, "t4": {"cache": {"enabled": False}}})
     if "t1_parallel" in feats:
-        o = world.deep_merge(o, {"perf": {"parallel": {"enabled": True, "t1": True, "max_workers": draw_vals["workers"]}}})
+        par.update({"enabled": True, "t1": True, "max_workers": v["workers"]})
     if "t2_parallel" in feats:
         # sharded retrieval on worker threads; without the archive tier nothing re-finds what a tier lost
-        o = world.deep_merge(o, {"perf": {"parallel": {"enabled": True, "t2": True, "max_workers": draw_vals["workers"]}},
-                                 "t2": {"tiers": ["exact_semantic", "cluster_semantic"], "exact_recent_days": 1}})
+        par.update({"enabled": True, "t2": True, "max_workers": v["workers"]})
+        o = world.deep_merge(o, {"t2": {"tiers": ["exact_semantic", "cluster_semantic"], "exact_recent_days": 1}})
+    if par:
+        o = world.deep_merge(o, {"perf": {"parallel": par}})
     if "sched_budgets" in feats:
-        o = world.deep_merge(o, {"scheduler": {"enabled": True, "quantum_ms": 10 ** 8, "policy": draw_vals["policy"],
-                                               "budgets": dict({"wall_ms": 10 ** 9}, **draw_vals["budgets"])}})
+        o = world.deep_merge(o, {"scheduler": {"enabled": True, "quantum_ms": 10 ** 8, "policy": v["policy"],
+                                               "budgets": dict({"wall_ms": 10 ** 9}, **v["budgets"])}})
     if "gel" in feats:
-        o = world.deep_merge(o, {"graph": {"enabled": True, "coactivation_threshold": 0.0, "update": {"alpha": 0.5},
-                                           "decay": {"half_life_turns": 2, "floor": 0.01},
-                                           "merge": {"enabled": True, "min_size": 2, "min_avg_w": 0.1}, "split": {"enabled": True, "weak_edge_thresh": 0.05},
-                                           "promotion": {"enabled": True}}})
+        g = v.get("gel") or {}
+        o = world.deep_merge(o, {"graph": _opt(_opt({
+            "enabled": True, "coactivation_threshold": g.get("thr", 0.0),
+            "update": _opt({"alpha": g.get("alpha", 0.5)}, "mode", g.get("mode")),
+            "decay": {"half_life_turns": g.get("half_life", 2), "floor": 0.01},
+            "merge": _opt(_opt({"enabled": True, "min_size": 2, "min_avg_w": 0.1}, "cap_per_turn", g.get("merge_cap")), "max_diameter", g.get("diam")),
+            "split": _opt({"enabled": True, "weak_edge_thresh": 0.05}, "cap_per_turn", g.get("split_cap")),
+            "promotion": _opt(_opt(_opt({"enabled": True}, "label_mode", g.get("label_mode")), "cap_per_turn", g.get("promo_cap")),
+                              "topk_label_ids", g.get("topk_label_ids"))},
+            "observe_top_k", g.get("top_k")), "pair_cap_per_obs", g.get("pair_cap"))})
     if "reflection" in feats:
-        o = world.deep_merge(o, {"t3": {"allow_reflection": True, "reflection": {"summary_tokens": 12, "embed": True}},
-                                 "scheduler": {"budgets": {"ops_reflection": 2}}})
+        r = v.get("refl") or {}
+        o = world.deep_merge(o, {"t3": {"allow_reflection": True,
+                                        "reflection": _opt({"summary_tokens": r.get("summary_tokens", 12), "embed": r.get("embed", True)},
+                                                           "topk_snippets", r.get("topk"))},
+                                 "scheduler": {"budgets": {"ops_reflection": r.get("ops", 2)}}})
     if "hybrid" in feats:
-        o = world.deep_merge(o, {"t2": {"hybrid": {"enabled": True, "lambda_graph": 1.0, "edge_threshold": 0.0, "walk_hops": draw_vals["hops"]}}})
+        h = v.get("hyb") or {}
+        hy = {"enabled": True, "lambda_graph": h.get("lam", 1.0), "edge_threshold": 0.0, "walk_hops": v["hops"]}
+        for k in ("anchor_top_m", "degree_norm", "k_max", "damping", "max_bonus"):
+            _opt(hy, k, h.get(k))
+        o = world.deep_merge(o, {"t2": {"hybrid": hy}})
     if "quality" in feats:
-        o = world.deep_merge(o, {"t2": {"quality": {"enabled": True, "mmr": {"enabled": True, "lambda": 0.7}}}})
+        q = v.get("qual") or {}
+        o = world.deep_merge(o, {"t2": {"quality": _opt({"enabled": True,
+                                                         "mmr": _opt({"enabled": q.get("mmr", True), "lambda": q.get("lam", 0.7)}, "k", q.get("k"))},
+                                                        "fusion", (None if q.get("alpha") is None else {"alpha_semantic": q["alpha"]}))}})
     if "perf_metrics" in feats:
         o = world.deep_merge(o, {"perf": {"enabled": True, "metrics": {"report_memory": True},
-                                          "t1": {"caps": {"frontier": draw_vals["frontier"]}, "dedupe_window": 4}}})
+                                          "t1": {"caps": {"frontier": v["frontier"]}, "dedupe_window": 4}}})
+    if "t1_perf_caps" in feats:
+        c = v.get("t1caps") or {}
+        o = world.deep_merge(o, {"perf": {"enabled": True, "t1": {"caps": {"frontier": c.get("frontier", 2), "visited": c.get("visited", 2)},
+                                                                  "dedupe_window": c.get("dedupe", 2)}}})
+    if "perf_caches" in feats:
+        c = v.get("pcache") or {}
+        t1c = dict(c.get("t1") or {"max_entries": 64, "max_bytes": 10 ** 6})
+        if "t1_parallel" in feats:
+            t1c = {"max_entries": 64, "max_bytes": 10 ** 6}  # see ASSUMPTIONS: eviction order under the T1 fan-out is C09's known finding
+        o = world.deep_merge(o, {"perf": {"enabled": True, "t1": {"cache": t1c}, "t2": {"cache": dict(c.get("t2") or {"max_entries": 64, "max_bytes": 10 ** 6})}}})
+    if "small_caches" in feats:
+        c = v.get("scache") or {}
+        t1c = {"ttl_s": c.get("ttl", 60)}
+        if "t1_parallel" not in feats:
+            t1c["max_entries"] = c.get("n1", 1)
+        o = world.deep_merge(o, {"t1": {"cache": t1c}, "t2": {"cache": {"max_entries": c.get("n2", 1), "ttl_s": c.get("ttl", 60)}},
+                                 "t4": {"cache": {"max_entries": c.get("n4", 1), "ttl_sec": c.get("ttl", 60)}}})
+    if "embed_reader" in feats:
+        # retrieval straight from on-disk embedding shards (written by the harness from the case's episodes before the first turn)
+        e = v.get("embed") or {}
+        o = world.deep_merge(o, {"perf": {"enabled": True, "t2": {"reader": {"partitions": {"enabled": True, "layout": e.get("layout", "none")}},
+                                                                  "embed_store_dtype": e.get("dtype", "fp32"), "precompute_norms": bool(e.get("norms", False))}},
+                                 "t2": {"reader_batch": e.get("batch", 8192)}})
     if "agent_scope" in feats:
         o = world.deep_merge(o, {"t2": {"owner_scope": "agent"}})
     if "kill_switch" in feats:
@@ -73,61 +150,265 @@ def feature_overrides(feats, draw_vals):
         o = world.deep_merge(o, {"t4": {"snapshot_every_n_turns": 2}})
     if "snippet_template" in feats:
         o = world.deep_merge(o, {"t3": {"dialogue": {"template": "say {labels} | {snippets} | {intent}", "include_top_k_snippets": 3}}})
+    if "llm_dialogue" in feats:
+        o = world.deep_merge(o, {"t3": {"backend": "llm"}})
+    if "rag_eager" in feats:
+        # thresholds above what retrieval reaches: the planner asks for a refinement although hits exist
+        p = v.get("rag") or {}
+        o = world.deep_merge(o, {"t3": {"policy": {"tau_high": p.get("tau_high", 1.0), "tau_low": p.get("tau_low", 1.0)},
+                                        "max_rag_loops": p.get("loops", 1)}})
     return o
+
+
+# ---------------------------------------------------------------- generator
+
+G1_IDS = ["a", "b", "c", "d", "e", "ä", "A", "n:1", "f", "g", "h", "B"]
+EP_IDS = ["e1", "e10", "e2", "E3", "e3", "é4", "e5", "e6", "e7", "e8", "e9", "E1", "e07", "ep-6"]
+_DECAYS = [{"mode": "attn_quad", "alpha": 0.1}, {"mode": "attn_quad", "alpha": 2.0}, {"mode": "attn_quad", "alpha": 0.8},
+           {"mode": "exp_floor", "rate": 0.9, "floor": 0.05}, {"mode": "exp_floor", "rate": 0.3, "floor": 0.2}]
+_EDGE_MULTS = [{"supports": 1.0, "associates": 0.6, "contradicts": 0.8}, {"supports": 0.4, "associates": 1.0, "contradicts": 0.1}]
+_TIERS = [["exact_semantic", "cluster_semantic", "archive"], ["cluster_semantic", "exact_semantic"], ["cluster_semantic"], ["archive"],
+          ["exact_semantic", "cluster_semantic"], ["cluster_semantic", "archive"]]
+
+
+def _case_variants(w: str):
+    out = []
+    for x in (w.lower(), w.capitalize(), w.upper(), w.lower()):
+        out.append(x)
+    return out
+
+
+@st.composite
+def _shape_world(draw, graphs, eps):
+    """Post-process the drawn world so that the inputs which make iteration order / de-duplication visible exist by construction."""
+    shape = []
+    g1 = graphs["g1"]
+    # (1) labels differing only in case inside ONE graph (and once more in another graph)
+    if len(g1["nodes"]) >= 2 and draw(st.booleans()):
+        w = draw(st.sampled_from(["apple", "plum", "Date", "Äpfel", "kiwi"]))
+        var = _case_variants(w)
+        k = draw(st.integers(2, min(3, len(g1["nodes"]))))
+        idx = draw(st.permutations(list(range(len(g1["nodes"])))))[:k]
+        for j, i in enumerate(idx):
+            g1["nodes"][i]["label"] = var[j]
+        if graphs["g2"]["nodes"] and draw(st.booleans()):
+            graphs["g2"]["nodes"][0]["label"] = draw(st.sampled_from(var))
+        shape.append("case_twins")
+    # (2) one label on several nodes (all seeds tie)
+    if len(g1["nodes"]) >= 3 and draw(st.sampled_from([False, False, True])):
+        w = draw(st.sampled_from(world.VOCAB[:6]))
+        for n in draw(st.permutations(g1["nodes"]))[:draw(st.integers(2, 4))]:
+            n["label"] = w
+        shape.append("same_label")
+    # (2b) two labels that may or may not land on ONE node id: g1 carries label w on node X and on another node, g2 carries another label
+    #      on its own node X (ids overlap between graphs), and one episode mentions both labels
+    shared = [n for n in g1["nodes"] if any(m["id"] == n["id"] for m in graphs["g2"]["nodes"])]
+    if shared and len(g1["nodes"]) >= 2 and eps and draw(st.sampled_from([False, True, True])):
+        x = draw(st.sampled_from(shared))
+        y = draw(st.sampled_from([n for n in g1["nodes"] if n is not x]))
+        w, w2 = draw(st.permutations(["apple", "pear", "kiwi", "fig"]))[:2]
+        x["label"], y["label"] = w, draw(st.sampled_from([w, w, w.upper()]))
+        for m in graphs["g2"]["nodes"]:
+            if m["id"] == x["id"]:
+                m["label"] = w2
+        e = draw(st.sampled_from(eps))
+        e["text"] = draw(st.sampled_from([f"{w} {w2}", f"{w2} {w} {w}", f"{w} {w2} plum"]))
+        e["vec_full"] = world.BowEncoder().vec(e["text"])
+        e["owner"] = draw(st.sampled_from(["B", "world", e["owner"]]))
+        shape.append("label_collision:" + w)
+    # (3) a block of exact ties among the episodes: same content, and for some of them the same timestamp
+    if len(eps) >= 3 and draw(st.booleans()):
+        src = draw(st.sampled_from(eps))
+        if src.get("vec_full") is not None:
+            k = draw(st.integers(2, min(5, len(eps) - 1)))
+            for e in [e for e in draw(st.permutations(eps)) if e is not src][:k]:
+                e["text"], e["vec_full"] = src["text"], list(src["vec_full"])
+                if draw(st.booleans()):
+                    e["ts"] = src["ts"]
+                if draw(st.booleans()):
+                    e["owner"] = src["owner"]
+                if draw(st.booleans()):
+                    e["aux"] = copy.deepcopy(src.get("aux") or {})
+                    if draw(st.booleans()):
+                        e["aux"]["cluster_id"] = draw(st.sampled_from(["c1", "c2", "c3", "C1"]))
+            shape.append("tie_block")
+    return shape
+
+
+@st.composite
+def _base_cfg(draw):
+    """Config leaves drawn independently of the features (each one on in about half of the cases)."""
+    base = {}
+
+    def maybe(path_val):
+        nonlocal base
+        if draw(st.booleans()):
+            base = world.deep_merge(base, path_val())
+
+    maybe(lambda: {"t2": {"k_retrieval": draw(st.sampled_from([1, 2, 3, 10]))}})
+    maybe(lambda: {"t2": {"ranking": draw(st.sampled_from([{"alpha_sim": 0.5, "beta_recency": 0.4, "gamma_importance": 0.1},
+                                                           {"alpha_sim": 0.0, "beta_recency": 0.0, "gamma_importance": 1.0},
+                                                           {"alpha_sim": 1.0, "beta_recency": 0.0, "gamma_importance": 0.0}]))}})
+    maybe(lambda: {"t1": {"queue_budget": draw(st.sampled_from([2, 4, 10000])), "radius_cap": draw(st.sampled_from([1, 2, 4]))}})
+    # decay settings differ from case to case: anything the process memoises about them must be keyed completely
+    maybe(lambda: {"t1": {"decay": draw(st.sampled_from(_DECAYS))}})
+    maybe(lambda: {"t1": {"edge_type_mult": draw(st.sampled_from(_EDGE_MULTS))}})
+    maybe(lambda: {"t1": {"iter_cap": draw(st.sampled_from([1, 2, 50])), "node_budget": draw(st.sampled_from([0.5, 1.0, 1.5]))}})
+    maybe(lambda: {"t2": {"clusters_top_m": draw(st.sampled_from([1, 1, 2]))}})
+    maybe(lambda: {"t2": {"sim_threshold": draw(st.sampled_from([-1.0, 0.0, 0.0, 0.6]))}})
+    if draw(st.sampled_from([False, False, False, True])):  # only the COUNT of residual nudges reaches a log: a tight cap hides which nodes were chosen
+        base = world.deep_merge(base, {"t2": {"residual_cap_per_turn": draw(st.sampled_from([1, 2, 3]))}})
+    maybe(lambda: {"t2": {"exact_recent_days": draw(st.sampled_from([0, 1, 7, 365])), "tiers": draw(st.sampled_from(_TIERS))}})
+    maybe(lambda: {"t2": {"owner_scope": draw(st.sampled_from(["world", "any", "agent"]))}})
+    maybe(lambda: {"t3": {"tokens": draw(st.sampled_from([2, 4, 8, 40])), "max_ops_per_turn": draw(st.sampled_from([1, 2, 3]))}})
+    maybe(lambda: {"t3": {"policy": {"tau_high": draw(st.sampled_from([0.5, 0.8, 0.95])), "tau_low": draw(st.sampled_from([0.0, 0.2, 0.4])),
+                                     "epsilon_edit": draw(st.sampled_from([0.0, 0.0, 0.1]))}}})
+    # retrieval ORDER must reach an output the property names: most cases list the top snippets in the utterance
+    if draw(st.sampled_from([True, True, True, False])):
+        base = world.deep_merge(base, {"t3": {"dialogue": {"template": draw(st.sampled_from(TEMPLATES)),
+                                                           "include_top_k_snippets": draw(st.sampled_from([1, 2, 3, 5]))}}})
+    maybe(lambda: {"t4": {"churn_cap_edges": draw(st.sampled_from([1, 2, 3])), "novelty_cap_per_node": draw(st.sampled_from([0.05, 0.3])),
+                          "delta_norm_cap_l2": draw(st.sampled_from([0.1, 1.5])),
+                          "cooldowns": draw(st.sampled_from([{}, {"EditGraph": 2}, {"Speak": 1, "EditGraph": 1}]))}})
+    maybe(lambda: {"t4": {"cache_bust_mode": draw(st.sampled_from(["none", "on-apply"])), "snapshot_every_n_turns": draw(st.sampled_from([1, 2, 3]))}})
+    maybe(lambda: {"t4": {"cache": {"ttl_sec": draw(st.sampled_from([1, 100, 600])), "max_entries": draw(st.sampled_from([1, 2, 512]))}}})
+    return base
+
+
+@st.composite
+def _vals(draw):
+    cache_small = st.sampled_from([{"max_entries": 1, "max_bytes": 10 ** 6}, {"max_entries": 2, "max_bytes": 10 ** 6}, {"max_entries": 64, "max_bytes": 200},
+                                   {"max_entries": 64, "max_bytes": 10 ** 6}, {"max_entries": 0, "max_bytes": 120}])
+    return {
+        "workers": draw(st.sampled_from([2, 3, 4])), "policy": draw(st.sampled_from(["round_robin", "fair_queue"])),
+        "budgets": draw(st.fixed_dictionaries({}, optional={"t1_pops": st.sampled_from([0, 1, 2, 50]), "t1_iters": st.sampled_from([0, 1, 50]),
+                                                            "t2_k": st.sampled_from([0, 1, 2, 50]), "t3_ops": st.sampled_from([0, 1, 3])})),
+        "hops": draw(st.sampled_from([1, 2])), "frontier": draw(st.sampled_from([1, 2, 50])),
+        "gel": draw(st.fixed_dictionaries({}, optional={
+            "thr": st.sampled_from([0.0, 0.3]), "alpha": st.sampled_from([0.5, 0.3, 1.0]), "mode": st.sampled_from(["additive", "proportional"]),
+            "half_life": st.sampled_from([1, 2, 200]), "merge_cap": st.sampled_from([1, 1, 4]), "diam": st.sampled_from([1, 2]),
+            "split_cap": st.sampled_from([1, 4]), "label_mode": st.sampled_from(["lexmin", "concat_k"]), "promo_cap": st.sampled_from([1, 2]),
+            "topk_label_ids": st.sampled_from([1, 2]), "top_k": st.sampled_from([2, 3, 64]), "pair_cap": st.sampled_from([1, 2, 3, 2048])})),
+        "refl": draw(st.fixed_dictionaries({}, optional={"summary_tokens": st.sampled_from([3, 12]), "embed": st.booleans(),
+                                                         "topk": st.sampled_from([0, 1, 3]), "ops": st.sampled_from([1, 2])})),
+        "hyb": draw(st.fixed_dictionaries({}, optional={"lam": st.sampled_from([1.0, 0.25]), "anchor_top_m": st.sampled_from([1, 2, 8]),
+                                                        "degree_norm": st.sampled_from(["none", "invdeg"]), "k_max": st.sampled_from([2, 3, 128]),
+                                                        "damping": st.sampled_from([0.5, 0.9]), "max_bonus": st.sampled_from([0.1, 0.5])})),
+        "qual": draw(st.fixed_dictionaries({}, optional={"mmr": st.sampled_from([True, True, False]), "lam": st.sampled_from([0.3, 0.7, 1.0]),
+                                                         "k": st.sampled_from([1, 2, 3]), "alpha": st.sampled_from([0.0, 0.6, 1.0])})),
+        "t1caps": {"frontier": draw(st.sampled_from([1, 2, 50])), "visited": draw(st.sampled_from([1, 2, 8])), "dedupe": draw(st.sampled_from([1, 2, 8]))},
+        "pcache": {"t1": draw(cache_small), "t2": draw(cache_small)},
+        "scache": {"n1": draw(st.sampled_from([1, 2])), "n2": draw(st.sampled_from([1, 2])), "n4": draw(st.sampled_from([1, 2])),
+                   "ttl": draw(st.sampled_from([1, 60, 300]))},
+        "rag": {"tau_high": 1.0, "tau_low": draw(st.sampled_from([1.0, 0.999])), "loops": draw(st.sampled_from([1, 1, 0]))},
+        "embed": {"layout": draw(st.sampled_from(["none", "none", "owner_quarter"])), "dtype": draw(st.sampled_from(["fp32", "fp16"])),
+                  "norms": draw(st.booleans()), "batch": draw(st.sampled_from([1, 2, 8192])), "shards": draw(st.sampled_from([1, 2, 3]))},
+        "planner": {"mags": draw(st.sampled_from([[0.2], [0.2, 0.2, 0.5], [0.05, -0.05], [1.0, -1.0, 0.25], [0.3, 0.3, 0.3, -0.3]])),
+                    "max_hits": draw(st.sampled_from([0, 2, 5])), "dup": draw(st.booleans()), "op_idx": draw(st.sampled_from([None, 0, 1]))},
+    }
 
 
 @st.composite
 def cases(draw):
-    eps = draw(world.episode_lists(max_eps=10, owners=["A", "B", "world"], allow_missing_ts=False,
-                                   ids=["e1", "e10", "e2", "E3", "é4", "e5", "e6", "e7", "e8", "e9"]))
-    graphs = {"g1": draw(world.graph_specs(max_nodes=6, max_edges=8, ids=["a", "b", "c", "d", "e", "ä"])),
+    eps = draw(world.episode_lists(max_eps=draw(st.sampled_from([10, 10, 14])), owners=["A", "B", "world", "Ç"], allow_missing_ts=False, ids=EP_IDS))
+    big = draw(st.sampled_from([False, False, True]))
+    graphs = {"g1": draw(world.graph_specs(max_nodes=10 if big else 6, max_edges=14 if big else 8, ids=G1_IDS if big else ["a", "b", "c", "d", "e", "ä"])),
               # node ids overlap between graphs (a label map over several active graphs meets the same id twice)
               "g2": draw(world.graph_specs(max_nodes=4, max_edges=4, ids=["a", "b", "x", "y"])),
               "g3": draw(world.graph_specs(max_nodes=3, max_edges=3, ids=["a", "c", "q"]))}
+    shape = draw(_shape_world(graphs, eps)) + (["big_g1"] if big else [])
     gel = draw(world.gel_graphs([e["id"] for e in eps])) if draw(st.booleans()) else None
-    feats = sorted(draw(st.sets(st.sampled_from(FEATURES), max_size=5)))
-    vals = {"workers": draw(st.sampled_from([2, 3, 4])), "policy": draw(st.sampled_from(["round_robin", "fair_queue"])),
-            "budgets": draw(st.fixed_dictionaries({}, optional={"t1_pops": st.sampled_from([0, 1, 2, 50]), "t1_iters": st.sampled_from([0, 1, 50]),
-                                                                "t2_k": st.sampled_from([0, 1, 2, 50]), "t3_ops": st.sampled_from([0, 1, 3])})),
-            "hops": draw(st.sampled_from([1, 2])), "frontier": draw(st.sampled_from([1, 2, 50]))}
-    base = {}
+    feats = sorted(draw(st.sets(st.sampled_from(FEATURES), max_size=6)))
+    vals = draw(_vals())
+    base = draw(_base_cfg())
+    agents = {"A": ["g1", "g3"], "B": ["g2", "g1"], "Ç": ["g3"]}
     if draw(st.booleans()):
-        base = world.deep_merge(base, {"t2": {"k_retrieval": draw(st.sampled_from([1, 2, 3, 10]))}})
-    if draw(st.booleans()):
-        base = world.deep_merge(base, {"t2": {"ranking": {"alpha_sim": 0.5, "beta_recency": 0.4, "gamma_importance": 0.1}}})
-    if draw(st.booleans()):
-        base = world.deep_merge(base, {"t1": {"queue_budget": draw(st.sampled_from([2, 4, 10000])), "radius_cap": draw(st.sampled_from([1, 2, 4]))}})
-    if draw(st.booleans()):
-        # decay settings differ from case to case: anything the process memoises about them must be keyed completely
-        base = world.deep_merge(base, {"t1": {"decay": draw(st.sampled_from([
-            {"mode": "attn_quad", "alpha": 0.1}, {"mode": "attn_quad", "alpha": 2.0}, {"mode": "attn_quad", "alpha": 0.8},
-            {"mode": "exp_floor", "rate": 0.9, "floor": 0.05}, {"mode": "exp_floor", "rate": 0.3, "floor": 0.2}]))}})
-    if draw(st.booleans()):
-        base = world.deep_merge(base, {"t1": {"edge_type_mult": draw(st.sampled_from([
-            {"supports": 1.0, "associates": 0.6, "contradicts": 0.8}, {"supports": 0.4, "associates": 1.0, "contradicts": 0.1}]))}})
+        agents = {a: list(draw(st.permutations(["g1", "g2", "g3"])))[:draw(st.integers(1, 3))] for a in ("A", "B", "Ç")}
+    collide = [s_.split(":", 1)[1] for s_ in shape if s_.startswith("label_collision:")]
+    if collide:
+        agents["B"] = list(draw(st.permutations(["g1", "g2"]))) + (["g3"] if draw(st.booleans()) else [])
     words = [w for e in eps for w in (e.get("text") or "").lower().split()] or world.VOCAB[:4]
     glabels = [n["label"] for g in graphs.values() for n in g["nodes"] if n["label"]] or world.VOCAB[:2]
     script = []
-    for _ in range(draw(st.integers(2, 6))):
-        tw = draw(st.lists(st.sampled_from(words + glabels), min_size=1, max_size=4))
-        script.append({"agent": draw(st.sampled_from(["A", "B", "B", "Ç"])), "text": " ".join(tw),
-                       "adv_ms": draw(st.sampled_from([1000, 60000, 86400000]))})
+    n_turns = draw(st.integers(2, 6))
+    for _ in range(n_turns):
+        agent = draw(st.sampled_from(["A", "B", "B", "Ç"]))
+        if draw(st.sampled_from([False, False, False, True])):
+            # everything the agent's graphs can be asked about at once: more touched labels than any cap downstream
+            tw = [n["label"] for gid in agents[agent] for n in graphs[gid]["nodes"] if n["label"]] or [draw(st.sampled_from(glabels))]
+            tw = list(draw(st.permutations(tw)))[:12]
+        else:
+            tw = draw(st.lists(st.sampled_from(words + glabels + glabels), min_size=1, max_size=4))
+        text = " ".join(tw)
+        script.append({"agent": agent, "text": draw(st.sampled_from([text, text, text, text, text, text.upper(), text.lower(), ""])),
+                       # seconds, minutes, a day, and hour steps that move the logical time of day (calendar-day / time-zone boundaries)
+                       "adv_ms": draw(st.sampled_from([1000, 60000, 86400000, 5 * 3600000, 11 * 3600000, 13 * 3600000]))})
+    if collide:
+        script[draw(st.integers(0, len(script) - 1))] = {"agent": "B", "text": draw(st.sampled_from([collide[0], collide[0] + " " + draw(st.sampled_from(glabels))])),
+                                                         "adv_ms": draw(st.sampled_from([1000, 60000]))}
     if script and draw(st.booleans()):
         script.append(dict(draw(st.sampled_from(script))))  # a verbatim repeat: cache hit candidate
-    clock = draw(st.sampled_from(["normal", "normal", "zero_fixed", "zero_start"]))
-    if clock == "zero_fixed":
+    clock = draw(st.sampled_from(["normal", "normal", "normal", "zero_fixed", "zero_start", "frozen"]))
+    if draw(st.sampled_from([False] * 8 + [True])):
+        # the turn-level cache (keyed on version, agent, logical now, request) can only hit while the version does not move (T4 off)
+        # and the logical clock stands still: repeat few (agent, text) pairs at one instant
+        pairs = [dict(s_) for s_ in draw(st.permutations(script))[:2]]
+        script = [dict(draw(st.sampled_from(pairs))) for _ in range(draw(st.integers(3, 5)))]
+        feats = sorted(set(feats) | {"kill_switch"})
+        clock = draw(st.sampled_from(["zero_fixed", "frozen"]))
+        shape.append("turn_cache")
+    if clock in ("zero_fixed", "frozen"):
         for s_ in script:
             s_["adv_ms"] = 0
     elif clock == "zero_start":
         script[0]["adv_ms"] = 0
         for s_ in script[1:]:
             s_["adv_ms"] = draw(st.sampled_from([1000, 200000, 400000]))
+    # edits by other writers between turns: an ingested episode (index version moves), a rewired graph (etag moves)
+    if draw(st.sampled_from([False, False, True])):
+        pos = draw(st.integers(1, len(script)))
+        if draw(st.booleans()) and eps:
+            twin = draw(st.sampled_from(eps))
+            ep = dict(copy.deepcopy(twin), id=draw(st.sampled_from(["new1", "E9", "e11"])), owner=draw(st.sampled_from(["A", "B", "world"])))
+            script.insert(pos, {"op": "ingest", "ep": ep})
+        else:
+            gid = draw(st.sampled_from(["g1", "g2"]))
+            nids = [n["id"] for n in graphs[gid]["nodes"]]
+            if len(nids) >= 1:
+                script.insert(pos, {"op": "rewire", "gid": gid, "edges": [
+                    {"id": draw(st.sampled_from(["e0", "e1", "r1"])), "src": draw(st.sampled_from(nids)), "dst": draw(st.sampled_from(nids)),
+                     "w": draw(st.sampled_from([1.0, 0.5, -0.5])), "rel": draw(st.sampled_from(["supports", "associates"]))}]})
+    # a second session: fresh engine state over the same world, booting from the snapshot directory of the first
+    resume = []
+    if draw(st.sampled_from([False, False, True])):
+        for _ in range(draw(st.integers(1, 2))):
+            resume.append({"agent": draw(st.sampled_from(["A", "B", "Ç"])), "text": " ".join(draw(st.lists(st.sampled_from(words + glabels), min_size=1, max_size=3))),
+                           "adv_ms": draw(st.sampled_from([0, 1000, 400000]))})
+    turn0 = draw(st.sampled_from([1, 1, 1, 0, 8, 98]))
     return {"eps": eps, "graphs": graphs, "gel": gel, "feats": feats, "vals": vals, "base": base, "script": script, "clock": clock,
-            "encoder": draw(st.sampled_from(["bow", "default"]))}
+            "encoder": draw(st.sampled_from(["bow", "default"])), "agents": agents, "shape": shape, "resume": resume, "turn0": turn0,
+            "tid": draw(st.sampled_from(["int", "int", "str"])),
+            "style": draw(st.sampled_from([None, None, {"A": "A>", "B": "", "Ç": "ç says"}])),
+            "meta": draw(st.sampled_from([None, None, {"cooldowns": {"EditGraph": 1, "Speak": 0}}, {"cooldowns": {"EditGraph": 97}}])),
+            "version0": draw(st.sampled_from([None, None, "0", "9", "99", "v7"])),
+            "snap_auto": draw(st.sampled_from([None, None, {"delta": True, "codec": "none"}, {"delta": False, "codec": "none"},
+                                               {"delta": True, "codec": "zstd"}]))}
 
+
+# ---------------------------------------------------------------- execution of one case
 
 def _sha(b: bytes) -> str:
     return hashlib.sha1(b).hexdigest()[:16]
+
+
+def _fix_floats(x):
+    if isinstance(x, dict):
+        if set(x) == {"__float__"}:
+            return float(x["__float__"])
+        return {k: _fix_floats(v) for k, v in x.items()}
+    if isinstance(x, list):
+        return [_fix_floats(v) for v in x]
+    return x
 
 
 def _engine(case, root):
@@ -135,32 +416,207 @@ def _engine(case, root):
     enc = "bow"
     if case.get("encoder") == "default":
         # the engine's own deterministic (content-hash, word-order sensitive) adapter for queries AND episodes
-        from clematis.adapters.embeddings import DeterministicEmbeddingAdapter
-        ad = DeterministicEmbeddingAdapter(dim=32)
-        eps = [dict(e, vec_full=(None if e.get("vec_full") is None else [float(x) for x in ad.encode([e.get("text") or ""])[0]])) for e in eps]
+        eps = _case_eps(case)
         enc = None
-    return observe.Engine({"graphs": case["graphs"], "eps": eps, "gel": case["gel"],
-                           "agents": {"A": ["g1", "g3"], "B": ["g2", "g1"], "Ç": ["g3"]}}, root, encoder=enc)
+    eng = observe.Engine({"graphs": case["graphs"], "eps": eps, "gel": case["gel"], "version": case.get("version0"),
+                          "agents": case.get("agents") or {"A": ["g1", "g3"], "B": ["g2", "g1"], "Ç": ["g3"]}}, root, encoder=enc)
+    if "reflection" in case["feats"]:
+        eng.state["_planner_reflection_flag"] = True
+    if "llm_dialogue" in case["feats"]:
+        from clematis.adapters.llm import DeterministicLLMAdapter
+        eng.state["llm_adapter"] = DeterministicLLMAdapter()  # the orchestrator's documented adapter slot; echoes the prompt
+    if case.get("meta") is not None:
+        eng.state["meta"] = copy.deepcopy(case["meta"])
+    return eng
+
+
+def _default_vec(e):
+    from clematis.adapters.embeddings import DeterministicEmbeddingAdapter
+    ad = DeterministicEmbeddingAdapter(dim=32)
+    return dict(e, vec_full=(None if e.get("vec_full") is None else [float(x) for x in ad.encode([e.get("text") or ""])[0]]))
+
+
+@contextlib.contextmanager
+def _planner(case):
+    """feature planner_deltas: the rule-based plan plus deltas derived from the bundle (touched nodes, retrieved episodes), installed
+    through the orchestrator's t3_deliberate hook. Pure function of (bundle, drawn parameters)."""
+    if "planner_deltas" not in case["feats"]:
+        yield
+        return
+    import clematis.engine.orchestrator as orch
+    import clematis.engine.orchestrator.core as core
+    from clematis.engine.types import ProposedDelta
+    p = (case.get("vals") or {}).get("planner") or {"mags": [0.2], "max_hits": 2, "dup": False, "op_idx": None}
+    mags = p["mags"]
+
+    def delib(ctx, state, bundle):
+        plan = core.deliberate(bundle)
+        nodes = list(bundle.get("t1", {}).get("touched_nodes", []) or [])
+        hits = list(bundle.get("t2", {}).get("retrieved", []) or [])[: p["max_hits"]]
+        ds = []
+        for i, n in enumerate(nodes):
+            ds.append(ProposedDelta("node", "n:" + str(n["id"]), "weight", float(mags[i % len(mags)]), op_idx=(p["op_idx"] if i % 2 == 0 else None), idx=i))
+        anchor = str(nodes[0]["id"]) if nodes else "x"
+        for j, h in enumerate(hits):
+            ds.append(ProposedDelta("edge", f"e:{h['id']}|coact|{anchor}", "weight", float(mags[(j + 1) % len(mags)]) * (-1.0 if j % 2 else 1.0),
+                                    op_idx=None, idx=len(nodes) + j))
+        if p["dup"] and ds:
+            ds.append(ProposedDelta(ds[0].target_kind, ds[0].target_id, ds[0].attr, 0.125, op_idx=1, idx=len(ds)))
+        plan.deltas = ds
+        return plan
+
+    had = "t3_deliberate" in vars(orch)
+    old = vars(orch).get("t3_deliberate")
+    had_core = "t3_deliberate" in vars(core)
+    old_core = vars(core).get("t3_deliberate")
+    orch.t3_deliberate = delib
+    try:
+        yield
+    finally:
+        if had:
+            orch.t3_deliberate = old
+        else:
+            vars(orch).pop("t3_deliberate", None)
+        if had_core:
+            core.t3_deliberate = old_core
+        elif "t3_deliberate" in vars(core):
+            delattr(core, "t3_deliberate")
+
+
+def _case_eps(case):
+    return [_default_vec(e) for e in case["eps"]] if case.get("encoder") == "default" else case["eps"]
+
+
+def _write_embed_store(case, root):
+    """feature embed_reader: the case's episodes as on-disk embedding shards under <root>/embed (layout none: s0..sN round-robin;
+    owner_quarter: <owner>/<year>Q<q>/s0)."""
+    import numpy as np
+    from clematis.engine.util.embed_store import write_shard
+    e = (case.get("vals") or {}).get("embed") or {}
+    rows = [(str(ep["id"]), ep["vec_full"], ep) for ep in _case_eps(case) if ep.get("vec_full") is not None]
+    base = os.path.join(root, "embed")
+    os.makedirs(base, exist_ok=True)
+    groups = {}
+    for i, (eid, vec, ep) in enumerate(rows):
+        if e.get("layout") == "owner_quarter":
+            ts = str(ep.get("ts") or "1970-01")
+            key = os.path.join(str(ep.get("owner") or "none"), f"{ts[:4]}Q{(int(ts[5:7]) - 1) // 3 + 1}", "s0")
+        else:
+            key = f"s{i % int(e.get('shards', 2))}"
+        groups.setdefault(key, []).append((eid, vec))
+    for key, items in groups.items():
+        write_shard(os.path.join(base, key), [eid for eid, _ in items], np.asarray([v for _, v in items], dtype=np.float32),
+                    dtype=e.get("dtype", "fp32"), precompute_norms=bool(e.get("norms", False)))
+    return base
+
+
+def _tid(case, k: int):
+    t = int(case.get("turn0", 1)) + k
+    return str(t) if case.get("tid") == "str" else t
+
+
+def _do_step(case, eng, st_):
+    op = st_.get("op")
+    if op == "ingest":
+        import numpy as np
+        ep = copy.deepcopy(st_["ep"])
+        if case.get("encoder") == "default":
+            ep = _default_vec(ep)
+        if ep.get("vec_full") is not None:
+            ep["vec_full"] = np.asarray(ep["vec_full"], dtype=np.float32)
+        eng.state["mem_index"].add(ep)
+    elif op == "rewire":
+        from clematis.engine.types import Edge
+        eng.state["store"].upsert_edges(st_["gid"], [Edge(id=e["id"], src=e["src"], dst=e["dst"], weight=e["w"], rel=e["rel"]) for e in st_["edges"]])
+    else:
+        raise RuntimeError(f"harness: unknown script step {op!r}")
+
+
+def _execute(case, root):
+    """Run the script (and the optional second session) in sandbox `root`. Returns (engines, lines, work, snapshot chain, bodies)."""
+    overrides = world.deep_merge(case["base"], feature_overrides(case["feats"], case["vals"]))
+    if "embed_reader" in case["feats"]:
+        overrides = world.deep_merge(overrides, {"t2": {"embed_root": _write_embed_store(case, root)}})
+    eng = _engine(case, root)
+    cfg = eng.cfg(overrides)
+    lines, work_t1, work_t2 = [], False, False
+    now = world.NOW_MS if case.get("clock", "normal") in ("normal", "frozen") else 0
+    chain = hashlib.sha1()
+    last_sha, written_at, bodies = {}, {}, []
+    snap_dir = os.path.join(root, "snap")
+
+    def after_turn(k):
+        for name, data in sorted(eng.snaps().items()):
+            if name.endswith(".meta"):
+                continue
+            h = _sha(data)
+            if last_sha.get(name) != h:
+                last_sha[name] = h
+                written_at[name] = k
+                chain.update(f"{k}:{name}:{h};".encode())
+                if case.get("snap_auto") and len(bodies) < 4:
+                    bodies.append(data)
+
+    def turn(e, st_, k):
+        nonlocal now, work_t1, work_t2
+        now += st_["adv_ms"]
+        extra = {}
+        if case.get("style") and case["style"].get(st_["agent"]):
+            extra["style_prefix"] = case["style"][st_["agent"]]
+        r = e.turn(st_["agent"], st_["text"], cfg, _tid(case, k), now, ctx_extra=extra or None)
+        lines.append(r["line"] if r["exc"] is None else "EXC:" + str(r["exc"]))
+        if r.get("t1") and (r["t1"]["counters"].get("pops") or 0) > 0:
+            work_t1 = True
+        if r.get("t2") and r["t2"]["retrieved"]:
+            work_t2 = True
+        after_turn(k)
+
+    k = 0
+    with _planner(case):
+        for st_ in case["script"]:
+            if st_.get("op"):
+                _do_step(case, eng, st_)
+                continue
+            turn(eng, st_, k)
+            k += 1
+        eng2 = None
+        if case.get("resume"):
+            # the loader picks the newest state_*.json by mtime: give the files the order in which they were written
+            for name, kk in written_at.items():
+                p = os.path.join(snap_dir, name)
+                if os.path.exists(p):
+                    os.utime(p, (1_000_000_000 + kk, 1_000_000_000 + kk))
+            eng2 = _engine(case, root)
+            eng2.state["_boot_loaded"] = False
+            for st_ in case["resume"]:
+                turn(eng2, st_, k)
+                k += 1
+    return eng, eng2, lines, bool(work_t1 and work_t2), chain.hexdigest()[:16], bodies
+
+
+def _snap_auto(case, root, bodies):
+    """Re-encode the recorded snapshot bodies through the header+payload writer (full, then deltas against the first full)."""
+    from clematis.engine.snapshot import write_snapshot_auto, read_snapshot
+    sa = case["snap_auto"]
+    d = os.path.join(root, "auto")
+    out = {}
+    with open(os.devnull, "w") as devnull, contextlib.redirect_stderr(devnull):
+        for i, raw in enumerate(bodies):
+            payload = json.loads(raw.decode("utf-8"))
+            path, was_delta = write_snapshot_auto(d, etag_from=("b0" if i else None), etag_to=f"b{i}", payload=payload,
+                                                  compression=sa["codec"], level=3, delta_mode=bool(sa["delta"] and i))
+            with open(path, "rb") as f:
+                out[os.path.basename(path)] = _sha(f.read().replace(root.encode(), b"<ROOT>"))
+            if sa["codec"] == "none":  # without the zstandard module the writer's fallback keeps the .zst name (C06's finding): no read-back
+                back = read_snapshot(path=path)
+                out["read:" + os.path.basename(path)] = digest(json.dumps(back, sort_keys=True))
+    return out
 
 
 def run_case(case) -> dict:
     """Execute one case in the current process/environment; returns the comparable observation (hashes + lines)."""
-    overrides = world.deep_merge(case["base"], feature_overrides(case["feats"], case["vals"]))
     with world.sandbox() as root:
-        eng = _engine(case, root)
-        if "reflection" in case["feats"]:
-            eng.state["_planner_reflection_flag"] = True
-        cfg = eng.cfg(overrides)
-        lines, work_t1, work_t2 = [], False, False
-        now = world.NOW_MS if case.get("clock", "normal") == "normal" else 0
-        for i, st_ in enumerate(case["script"], 1):
-            now += st_["adv_ms"]
-            r = eng.turn(st_["agent"], st_["text"], cfg, i, now)
-            lines.append(r["line"] if r["exc"] is None else "EXC:" + str(r["exc"]))
-            if r.get("t1") and (r["t1"]["counters"].get("pops") or 0) > 0:
-                work_t1 = True
-            if r.get("t2") and r["t2"]["retrieved"]:
-                work_t2 = True
+        eng, eng2, lines, work, chain, bodies = _execute(case, root)
         logs = eng.logs()
         obs = {"lines": lines}
         for name in observe.CANONICAL:
@@ -171,9 +627,14 @@ def run_case(case) -> dict:
         for k, v in sorted(eng.snaps().items()):
             if not k.endswith(".meta"):
                 obs["snap:" + k] = _sha(v)
+        obs["snapchain"] = chain
         obs["state"] = digest(observe.state_digest(eng.state))
+        if eng2 is not None:
+            obs["state2"] = digest(observe.state_digest(eng2.state))
+        if case.get("snap_auto") and bodies:
+            obs["auto"] = _snap_auto(case, root, bodies)
         obs["files"] = eng.listing()
-        obs["_work"] = bool(work_t1 and work_t2)
+        obs["_work"] = work
         obs["_raw"] = None
         return obs
 
@@ -184,17 +645,9 @@ def diff_obs(a: dict, b: dict):
 
 
 def full_logs(case) -> dict:
-    """Re-run and return the canonical log texts (for violation messages)."""
-    overrides = world.deep_merge(case["base"], feature_overrides(case["feats"], case["vals"]))
+    """Re-run and return the canonical log texts (for violation messages / debugging)."""
     with world.sandbox() as root:
-        eng = _engine(case, root)
-        if "reflection" in case["feats"]:
-            eng.state["_planner_reflection_flag"] = True
-        cfg = eng.cfg(overrides)
-        now = world.NOW_MS if case.get("clock", "normal") == "normal" else 0
-        for i, st_ in enumerate(case["script"], 1):
-            now += st_["adv_ms"]
-            eng.turn(st_["agent"], st_["text"], cfg, i, now)
+        eng = _execute(case, root)[0]
         return {k: v.decode("utf-8", "replace") for k, v in eng.logs().items()}
 
 
@@ -207,7 +660,7 @@ def install_clock_perturbation(seed: int):
     import types
 
     rng = random.Random(seed)
-    st_ = {"t": 1000.0, "w": rng.choice([1.7e9, 0.0, 5.0e9])}  # wall-clock origin shifted as well
+    st_ = {"t": 1000.0, "w": rng.choice([1.7e9, 0.0, 5.0e9]), "m": rng.choice([5.0, 86400.0 * 40]), "c": 0.0}
 
     def fake_pc():
         r = rng.random()
@@ -219,9 +672,24 @@ def install_clock_perturbation(seed: int):
         st_["w"] += rng.choice([0.0, 1e-3, 1.0, 3600.0])
         return st_["w"]
 
+    def fake_mono():
+        st_["m"] += rng.choice([0.0, 1e-6, 1e-3, 0.3, 700.0])
+        return st_["m"]
+
+    def fake_cpu():
+        st_["c"] += rng.choice([0.0, 1e-4, 0.5])
+        return st_["c"]
+
     time.perf_counter = fake_pc
     time.time = fake_time
-    off = _dtmod.timedelta(hours=rng.choice([-11, -5, 3, 9, 23]))
+    time.monotonic = fake_mono
+    time.perf_counter_ns = lambda: int(fake_pc() * 1e9)
+    time.time_ns = lambda: int(fake_time() * 1e9)
+    time.monotonic_ns = lambda: int(fake_mono() * 1e9)
+    time.process_time = fake_cpu
+    time.thread_time = fake_cpu
+    # hours (crossing a date line) or years: back to the logical timeline of the cases (mid 2025), far ahead, before the epoch's first year
+    off = _dtmod.timedelta(hours=rng.choice([-11, 23, 3, -24 * 471, -24 * 471 + 7, 24 * 3650, -24 * 365 * 40]))
     real = _dtmod.datetime
 
     class ShiftedDT(real):
@@ -249,6 +717,15 @@ def install_clock_perturbation(seed: int):
         if getattr(mod, "_dt", None) is _dtmod:
             mod._dt = shim
             n += 1
+    # directory listing order is unspecified: hand it out shuffled
+    real_listdir = os.listdir
+
+    def listdir(*a, **kw):
+        out = real_listdir(*a, **kw)
+        rng.shuffle(out)
+        return out
+
+    os.listdir = listdir
     return n
 
 
@@ -256,7 +733,6 @@ def worker(argv):
     inp, outp, mode = argv[0], argv[1], argv[2]
     with open(inp, encoding="utf-8") as f:
         cases_ = json.load(f)
-    from checks.c03 import _fix_floats
     cases_ = _fix_floats(cases_)
     flags = set(mode.split("+"))
     if "clocks" in flags:
@@ -285,6 +761,9 @@ def run_env(case_list, mode: str, hashseed: str, env_seed: int) -> dict:
         env = dict(os.environ)
         env["PYTHONHASHSEED"] = hashseed
         env["VERIF_ENV_SEED"] = str(env_seed)
+        if "clocks" in mode.split("+"):
+            # the process time zone is part of "the process" (POSIX TZ strings: no tzdata needed)
+            env["TZ"] = ["UTC0", "JST-9", "PST8PDT", "LINT-14", "XXX12", "IST-5:30"][env_seed % 6]
         p = subprocess.run([sys.executable, "-m", "checks.c01", "worker", inp, outp, mode], env=env, stdout=subprocess.PIPE,
                            stderr=subprocess.STDOUT, cwd=os.path.dirname(os.path.dirname(os.path.abspath(__file__))))
         if not os.path.exists(outp):
@@ -298,6 +777,40 @@ def run_env(case_list, mode: str, hashseed: str, env_seed: int) -> dict:
 
 # ---------------------------------------------------------------- the sub-check
 
+def _labels(case, o0):
+    base = case.get("base") or {}
+    lb = [f"feat={f}" for f in case["feats"]] + [f"encoder={case.get('encoder')}", f"clock={case.get('clock')}"]
+    lb += [f"shape={s.split(':')[0]}" for s in case.get("shape") or []]
+    for sec, leaves in sorted(base.items()):
+        for leaf in sorted(leaves):
+            lb.append(f"base={sec}.{leaf}")
+    if case.get("resume"):
+        lb.append("resume")
+    if case.get("snap_auto"):
+        lb.append(f"snap_auto={'delta' if case['snap_auto']['delta'] else 'full'}/{case['snap_auto']['codec']}")
+    if case.get("tid") == "str":
+        lb.append("tid=str")
+    lb.append(f"turn0={case.get('turn0', 1)}")
+    if case.get("version0") is not None:
+        lb.append(f"version0={case['version0']}")
+    if case.get("style"):
+        lb.append("style_prefix")
+    if case.get("meta"):
+        lb.append("state_meta_cooldowns")
+    for s_ in case["script"]:
+        if s_.get("op"):
+            lb.append("step=" + s_["op"])
+    if o0["_work"]:
+        lb.append("work")
+    if any(str(x).startswith("EXC:") for x in o0["lines"]):
+        lb.append("exc")
+    if "log:scheduler.jsonl(masked)" in o0:
+        lb.append("yielded")
+    if o0["counts"].get("apply.jsonl"):
+        lb.append("applied")
+    return lb
+
+
 def sub_repro(rec, seed, shard, nshards, n=40, envs=2, shrink=True):
     world.reset_engine_globals()
     collected = []
@@ -309,12 +822,9 @@ def sub_repro(rec, seed, shard, nshards, n=40, envs=2, shrink=True):
         if d:
             raise Violation(f"re-run in the same warm process differs in {d}", case, "warm:" + d[0].split(":")[0])
         collected.append((case, o0))
-        agents = {s["agent"] for s in case["script"]}
+        agents = {s["agent"] for s in case["script"] if not s.get("op")}
         nt = o0["_work"] and len(agents) >= 2
-        rec.case(nontrivial=nt, dig=digest(case) if nt else None,
-                 labels=[f"feat={f}" for f in case["feats"]] + [f"encoder={case.get('encoder')}", f"clock={case.get('clock')}"] + (["work"] if o0["_work"] else []) +
-                        (["exc"] if any(str(x).startswith("EXC:") for x in o0["lines"]) else []) +
-                        (["yielded"] if "log:scheduler.jsonl(masked)" in o0 else []),
+        rec.case(nontrivial=nt, dig=digest(case) if nt else None, labels=_labels(case, o0),
                  sample={"feats": case["feats"], "script": case["script"], "lines": o0["lines"],
                          "episodes": [(e["id"], e["owner"], e["text"]) for e in case["eps"]][:6]} if nt else None)
 
@@ -341,7 +851,6 @@ def sub_repro(rec, seed, shard, nshards, n=40, envs=2, shrink=True):
 
 
 def replay_case(c):
-    from checks.c03 import _fix_floats
     c = _fix_floats(c)
     case = c.get("case", c)
     world.reset_engine_globals()
